@@ -130,7 +130,9 @@ class Parser(BaseParser):
 
     def p_argument_args(self, p):
         """argument : TIMES test"""
-        p[0] = ast.Starred(value=p[2])
+        p[0] = ast.Starred(
+            value=p[2], ctx=ast.Load(), lineno=p.lineno(1), col_offset=p.lexpos(1)
+        )
 
     def p_argument(self, p):
         """argument : test comp_for"""
